@@ -32,6 +32,13 @@ def step (line : String) : String :=
   | ["use", s, doy] => match parseInt? s, ints? doy with
       | some s, some d => showList toString (useCenters s d)
       | _, _ => "bad-op"
+  | ["slices", l, s, dO, dH, dF] =>
+      -- per centre of `use`: c ; adjust idx ; window idx obs ; window idx hist ; window idx fut   (joined by `|`)
+      match parseInt? l, parseInt? s, ints? dO, ints? dH, ints? dF with
+      | some l, some s, some dO, some dH, some dF =>
+          "|".intercalate ((useCenters s dF).map (fun c =>
+            s!"{c};{showList toString (idxAdjust s dF c)};{showList toString (idxWindow l dO c)};{showList toString (idxWindow l dH c)};{showList toString (idxWindow l dF c)}"))
+      | _, _, _, _, _ => "bad-op"
   | ["adjust", s, c, doy] => match parseInt? s, parseInt? c, ints? doy with
       | some s, some c, some d => showList toString (idxAdjust s d c)
       | _, _, _ => "bad-op"
